@@ -212,6 +212,20 @@ def run(ctx):
                 gmeta.append(('gen_drop_misaligned_sectors', sym, k))
             except Exception as e:
                 gen_broken.append('drop_misaligned_sectors raised on a contractible pair (symmetry %s, case %d): %s: %s' % (sym, k, type(e).__name__, e))
+        # the conjugated operands right afterwards, same axes (whatever the first call cached — plans keyed by indices whose
+        # direction has changed — must not be reused): dense value and directions of the result legs
+        if axa and a.blocks and b.blocks:
+            ac, bc = a.conj(), b.conj()
+            for mode in ('fused', 'auto'):
+                ctx.count()
+                try:
+                    cc = sr.tensordot(ac, bc, axes=(axa_in, axb_in), mode=mode, preserve_array=True)
+                    badc = dense_oracle(ac, bc, axa, axb, cc)
+                except Exception as e:
+                    badc = {'raised': '%s: %s' % (type(e).__name__, e)}
+                if badc is not None:
+                    found.append({'op': 'tensordot of the conjugated operands (after the same contraction of the originals)', 'mode': mode, 'symmetry': sym,
+                                  'a': describe(ac), 'b': describe(bc), 'axes': [axa_in, axb_in], **badc})
         # same contraction again with the contracted pairs listed in another order on
         # `a` only (b is transposed instead): same arrays, warm fuse cache
         if len(axa) >= 2:
